@@ -454,7 +454,7 @@ func c09Table(w *World, r *Report) {
 // ================================================================ C10
 
 func checkC10(w *World, r *Report) {
-	r.Explanation = "Decides the agreement structure of response carriage: (R10.1) response Encode/Decode layout agreement as for requests; (R10.2) the set of DNS record types the Wrap* functions construct equals the case set of the reassembly type switch and of the order-tag reader, and the dispatcher covers every query type the client may select; (R10.3) per record type the number of order-tag bytes prepended when wrapping equals the prefix stripped when unwrapping and the width read for sorting; (R10.4) tag + chunk size equals the fixed rdata size for A (4) and AAAA (16); (R10.5) every name-carrying record (CNAME, MX, SRV) builds its target with PrepareHostname, whose label/length limits make the record packable; (R10.6) the record type registered for the private RR equals the type the tunnel emits and asks for. Not decided: miekg Pack/Unpack (escaping, TXT string limits), capacity for all payload lengths, short last chunks of A/AAAA (they fail to pack: a reported failure)."
+	r.Explanation = "Decides the agreement structure of response carriage: (R10.1) response Encode/Decode layout agreement as for requests; (R10.2) the set of DNS record types the Wrap* functions construct equals the case set of the reassembly type switch and of the order-tag reader, and the dispatcher covers every query type the client may select; (R10.3) per record type the number of order-tag bytes prepended when wrapping equals the prefix stripped when unwrapping and the width read for sorting; (R10.4) tag + chunk size equals the fixed rdata size for A (4) and AAAA (16); (R10.5) every name-carrying record (CNAME, MX, SRV) builds its target with PrepareHostname, whose label/length limits make the record packable; (R10.6) the record type registered for the private RR equals the type the tunnel emits and asks for; (R10.9) in every Wrap* function no capacity guard is decided by its operand's type alone (a guard that can never fire) and every narrowing integer conversion is proven in range from the dominating guards. Not decided: miekg Pack/Unpack (escaping, TXT string limits), capacity for all payload lengths, short last chunks of A/AAAA (they fail to pack: a reported failure)."
 	r.NotDecided = []string{"miekg Pack/Unpack semantics (escaping, TXT limits)", "capacity for all payload lengths", "monotonicity of the TXT/CNAME tag arithmetic beyond 512 records"}
 	r.Trusted = []string{"miekg/dns unpacks a registered private type into dns.PrivateRR and an unregistered one into dns.RFC3597"}
 	r.Rule("R10.1", "response Encode/Decode layout agreement", 22)
@@ -465,6 +465,7 @@ func checkC10(w *World, r *Report) {
 	r.Rule("R10.6", "private record type registered = emitted", 1)
 	r.Rule("R10.8", "reassembly strips the domain by length, never by character set", 1)
 	r.Rule("R10.7", "tag + chunk fits the record type's rdata limit", 3)
+	r.Rule("R10.9", "order counters: capacity guards can fire, narrowing conversions proven in range", 8)
 
 	pairLayouts(w, r, "R10.1", "Response")
 	c10Records(w, r)
@@ -705,6 +706,42 @@ func c10Records(w *World, r *Report) {
 		}
 		r.Check(wi.Chunk > 0 && wi.TagLen+wi.Chunk <= limit, "R10.7", key, w.Pos(wi.Fn.Pos()), fmt.Sprintf("tag %d + chunk %d <= %d", wi.TagLen, wi.Chunk, limit),
 			fmt.Sprintf("tag %d + chunk %d exceeds the %d-octet limit of a %s %s: such a record cannot be packed", wi.TagLen, wi.Chunk, limit, name, mapStr(name == "TXT", "character-string")+mapStr(name != "TXT", "rdata")))
+	}
+	// R10.9: the per-record order counter cannot overflow its tag silently: every capacity guard can
+	// actually fire (no comparison decided by the operand's type alone) and every narrowing integer
+	// conversion in the wrappers is proven in range by the dominating guards
+	for _, name := range names {
+		wi := wraps[name]
+		key := "recordtype:" + name + "|tag-range"
+		var bad []string
+		ncmp, nconv := 0, 0
+		for _, f := range staticCone(wi.Fn, 2) {
+			allInstrs(f, func(in ssa.Instruction) {
+				switch x := in.(type) {
+				case *ssa.BinOp:
+					if why := vacuousComparison(x); why != "" {
+						bad = append(bad, w.Pos(x.Pos())+": "+why)
+					}
+					switch x.Op {
+					case token.LSS, token.LEQ, token.GTR, token.GEQ:
+						ncmp++
+					}
+				case *ssa.Convert:
+					lo, hi, narrowing := narrowingRange(x)
+					if !narrowing {
+						return
+					}
+					nconv++
+					sys := factsAt(in)
+					v := linOf(x.X, 0)
+					if !sys.entails(linConst(lo), v) || !sys.entails(v, linConst(hi)) {
+						bad = append(bad, fmt.Sprintf("%s: %s is narrowed to %s without a dominating guard that keeps it within [%d, %d]: the order tag wraps around and records are reassembled in the wrong order without an error", w.Pos(x.Pos()), x.X.Name(), x.Type(), lo, hi))
+					}
+				}
+			})
+		}
+		sort.Strings(bad)
+		r.Check(len(bad) == 0, "R10.9", key, w.Pos(wi.Fn.Pos()), fmt.Sprintf("%d ordering comparison(s) none decided by the operand type; %d narrowing conversion(s) proven in range", ncmp, nconv), strings.Join(bad, "; "))
 	}
 	// R10.8: payload-carrying names are never trimmed with a cutset function
 	{
